@@ -64,7 +64,9 @@ Layout ==
     C19_AllNodes |-> T.outcome = "ok" => T.npos = T.n /\ T.keys_match,
     C19_Finite |-> T.outcome = "ok" => T.finite,
     C19_NoCoincidentBond |-> T.outcome = "ok" => \A d \in ToSet(T.bond_ppm) : d > 0,
-    C19_MeanBond |-> T.outcome = "ok" => (T.mean_ppm >= 999999 /\ T.mean_ppm <= 1000001) ]
+    C19_MeanBond |-> T.outcome = "ok" => (T.mean_ppm >= 999999 /\ T.mean_ppm <= 1000001),
+    (* align_with given (align_ppm >= 0): the longest extent lies along the axis; |sin| of the angle in ppm *)
+    X_Aligned |-> T.outcome = "ok" => T.align_ppm <= 1000 ]
 
 Verdict == CASE T.mode = "roundtrip" -> RoundTrip
              [] T.mode = "embed" -> Embed
